@@ -5,7 +5,7 @@
    invariants and per-step lemmas of ReaderInv.v / ReaderProofs.v. *)
 Require Import Bytes Stream Utf8Spec Check Frame Cipher Utf8Dfa Extracted ExtractedOk Reader
   BytesProofs StreamProofs CheckProofs FrameProofs CipherProofs Utf8Proofs ReaderLocalProofs
-  ReaderAux ReaderInv ReaderProofs.
+  ReaderCutProofs ReaderAux ReaderInv ReaderProofs ReaderXInv ReaderXProofs.
 From Coq Require Import ZifyBool ZifyN ZifyNat.
 Open Scope N_scope.
 
@@ -125,3 +125,227 @@ Proof.
   destruct H as [H1 H2]. unfold reader_monitor, expected_events. fold (rm_cfg state).
   rewrite H1, H2. cbn [andb]. destruct (sr_out _); reflexivity.
 Qed.
+
+(* ================================================================== 2. streams cut at an arbitrary byte *)
+(* a strict prefix of a header is not a header *)
+Lemma rfc_parse_prefix_incomplete bs h rest n : rfc_parse bs = PComplete h rest ->
+  n + len rest < len bs -> rfc_parse (take n bs) = PIncomplete.
+Proof.
+  destruct bs as [|b0 [|b1 r]]; try discriminate. cbn [rfc_parse]. unfold rfc_parse_tail.
+  set (need := extn_of (b1 mod 128) + (if 128 <=? b1 then 4 else 0)).
+  destruct (len r <? need) eqn:E; [discriminate|].
+  destruct (_ && _); [discriminate|]. intros H. injection H as _ Hr. subst rest.
+  rewrite len_drop, !len_cons. intros Hn.
+  unfold take. destruct (N.to_nat n) as [|[|k]] eqn:En; cbn [firstn]; try reflexivity.
+  cbn [rfc_parse]. unfold rfc_parse_tail. fold need.
+  assert (Hl: len (firstn k r) <= N.of_nat k) by (unfold len; rewrite firstn_length; lia).
+  replace (len (firstn k r) <? need) with true by lia. reflexivity.
+Qed.
+
+Lemma header_prefix_incomplete h n : wf_header h -> n < len (rfc_header h) ->
+  rfc_parse (take n (rfc_header h)) = PIncomplete.
+Proof.
+  intros Hh Hn. pose proof (rfc_parse_header h [] Hh) as P. rewrite app_nil_r in P.
+  apply (rfc_parse_prefix_incomplete _ _ _ n P). rewrite len_nil. lia.
+Qed.
+
+Lemma cb_read_all_err h m k r e : fst (cb_read_all h m k r) = Some e -> e = RIo EFail \/ e = RIo EUnexpected.
+Proof.
+  unfold cb_read_all. destruct (read_full (r_rawN r) (r_src r)) as [[b e0] s'].
+  destruct e0 as [[| |]|]; cbn [fst]; intros H; inversion H; auto.
+Qed.
+
+Lemma wire_nil : wire [] = [].
+Proof. reflexivity. Qed.
+
+Lemma wire_app a b : wire (a ++ b) = wire a ++ wire b.
+Proof. unfold wire. rewrite map_app, concat_app. reflexivity. Qed.
+
+(* the source ends inside a header *)
+Lemma end_header_cut t x c openm lg r : wf_bytes x -> rfc_parse x = PIncomplete ->
+  BndX t x c openm lg [] r ->
+  exists h err r', next_frame r = ((h, Some err), r') /\ r_log r' = lg /\
+    (err = RIo EEOF -> openm = None /\ t = TEOF).
+Proof.
+  intros Hxw Hp [Hcfg (Hw & Ht & Hfl) _ Hlog Hst _ _]. rewrite wire_nil in Hfl. cbn [app] in Hfl.
+  unfold next_frame. rewrite reader_read_header_same.
+  pose proof (read_header_spec (r_src r) Hw ltac:(rewrite Hfl; exact Hxw)) as H. unfold dec_agrees in H.
+  destruct (read_header (r_src r)) as [res s1]. rewrite Hfl, Hp in H.
+  destruct H as (e & -> & He1 & He2). rewrite Hst, st_frag_set.
+  do 3 eexists. split; [reflexivity|]. rsimpl. split; [exact Hlog|].
+  rewrite Ht in He1. destruct e.
+  - destruct openm; cbn [is_some]; [discriminate|]. intros _. split; [reflexivity|].
+    destruct t; [reflexivity|discriminate].
+  - discriminate.
+  - discriminate.
+Qed.
+
+(* the source ends inside frame [f]: after [n] of its bytes *)
+Lemma cut_end t f n c openm lg r : wf_sframe f -> n < len (sf_wire f) ->
+  BndX t (take n (sf_wire f)) c openm lg [] r ->
+  exists h e r', next_frame r = ((h, e), r') /\
+    match e with
+    | Some err => r_log r' = lg /\
+        (err = RIo EEOF -> openm = None /\
+           match t with TEOF => n <? len (rfc_header (sf_header f)) | TFail => false end = true)
+    | None => Short lg r'
+    end.
+Proof.
+  intros Hf Hn HB. rewrite sf_wire_eq in *. set (hdr := rfc_header (sf_header f)) in *.
+  rewrite len_app, len_wpay in Hn.
+  assert (Hwp: wf_bytes (wpay f 0 (sf_payload f))) by (apply wpay_wf; [exact Hf|apply Hf]).
+  destruct (n <? len hdr) eqn:En.
+  - rewrite take_app_le in HB by (clear -En; lia).
+    destruct (end_header_cut t _ c openm lg r
+                ltac:(apply wf_bytes_take, rfc_header_wf, sf_header_wf, Hf)
+                (header_prefix_incomplete _ n (sf_header_wf f Hf) ltac:(fold hdr; clear -En; lia)) HB)
+      as (h & err & r' & Hnf & Hlg & He).
+    exists h, (Some err), r'. split; [exact Hnf|]. split; [exact Hlg|].
+    intros E. destruct (He E) as [-> ->]. split; reflexivity.
+  - rewrite take_app_ge in HB by (clear -En; lia).
+    set (pp := take (n - len hdr) (wpay f 0 (sf_payload f))) in *.
+    assert (Hlpp: len pp < len (sf_payload f)).
+    { unfold pp. rewrite len_take, len_wpay. clear -En Hn. lia. }
+    assert (Hwpp: wf_bytes pp) by (apply wf_bytes_take, Hwp).
+    destruct HB as [Hcfg (Hw & Ht & Hfl) _ Hlog Hst _ _]. rewrite wire_nil in Hfl. cbn [app] in Hfl.
+    destruct (next_frame_reads_header r (sf_header f) pp (sf_header_wf f Hf) Hwpp Hw Hfl)
+      as (s1 & Hrd & Hf1 & Hw1 & Ht1).
+    rewrite sf_header_norm in Hrd.
+    assert (HlenN: Z.to_N (h_len (sf_header f)) = len (sf_payload f)) by (cbn [sf_header h_len]; apply N2Z.id).
+    destruct Hcfg as (Hskip & Hchk & Hmax & Hext & Hcb).
+    unfold next_frame. rewrite Hrd, Hskip, HlenN.
+    destruct (check_header (sf_header f) (r_state r)) as [rl|].
+    { do 3 eexists. split; [reflexivity|]. rsimpl. split; [exact Hlog|discriminate]. }
+    destruct ((0 <? r_max r)%Z && (r_max r <? h_len (sf_header f))%Z).
+    { do 3 eexists. split; [reflexivity|]. rsimpl. split; [exact Hlog|discriminate]. }
+    destruct (if r_ext r then unset_bits (sf_header f) (r_compressed r) else Some (sf_header f, r_compressed r))
+      as [[hdr' comp']|].
+    2: { do 3 eexists. split; [reflexivity|]. rsimpl. split; [exact Hlog|discriminate]. }
+    destruct (st_fragmented (r_state r) && op_is_control (h_op hdr')).
+    + rewrite Hcb.
+      match goal with |- context [cb_read_all ?a ?b ?k ?d] =>
+        pose proof (cb_read_all_cut a b k d) as Hcut; pose proof (cb_read_all_err a b k d) as Herr;
+        destruct (cb_read_all a b k d) as [e r4] end.
+      cbn [fst snd] in Hcut, Herr. rsimpl.
+      destruct (Hcut Hw1 ltac:(rewrite Hf1; exact Hlpp)) as [Hne Hlg4].
+      destruct e as [e|]; [|contradiction].
+      do 3 eexists. split; [reflexivity|]. split; [rewrite Hlg4; exact Hlog|].
+      intros ->. destruct (Herr _ eq_refl) as [E|E]; discriminate E.
+    + do 3 eexists. split; [reflexivity|]. unfold Short; rsimpl.
+      repeat split; [exact Hw1| |exact Hlog]. rewrite Hf1. exact Hlpp.
+Qed.
+
+(* [frames_before]: the whole frames before the cut, and how far into the next one it falls *)
+Lemma frames_before_spec : forall fs cut done rest', frames_before cut fs = (done, rest') ->
+  exists tailfs, fs = done ++ tailfs /\ cut = len (wire done) + rest' /\
+    match tailfs with [] => True | f :: _ => rest' < len (sf_wire f) end.
+Proof.
+  induction fs as [|f fs IH]; intros cut done rest' H; cbn [frames_before] in H.
+  - injection H as <- <-. exists []. rewrite wire_nil, len_nil. repeat split. 
+  - destruct (len (sf_wire f) <=? cut) eqn:E.
+    + destruct (frames_before (cut - len (sf_wire f)) fs) as [d c'] eqn:Efb. injection H as <- <-.
+      destruct (IH _ _ _ Efb) as (tl' & -> & Hc & Ht). exists tl'. split; [reflexivity|].
+      split; [|exact Ht]. change (f :: d) with ([f] ++ d). rewrite wire_app, len_app.
+      unfold wire at 1. cbn [map concat]. rewrite app_nil_r. clear -E Hc. lia.
+    + injection H as <- <-. exists (f :: fs). rewrite wire_nil, len_nil. repeat split. clear -E. lia.
+Qed.
+
+Lemma new_reader_bndX t x c fs s : wf_cfg c -> Forall wf_sframe fs -> wf_src s -> tl s = t ->
+  flat s = wire fs ++ x ->
+  BndX t x c None [] fs (new_reader s (c_state c) false (c_check_utf8 c) (c_max c) (c_ext c) CbReadAll).
+Proof.
+  intros Hc Hfs Hw Ht Hfl. unfold new_reader. constructor; rsimpl; cbn [is_some].
+  - unfold cfg_ok; rsimpl. repeat split; reflexivity.
+  - unfold src_okx; rsimpl. repeat split; assumption.
+  - exact Hfs.
+  - reflexivity.
+  - symmetry. apply set_frag_init, Hc.
+  - reflexivity.
+  - reflexivity.
+Qed.
+
+Lemma negb_clean e : e <> RIo EEOF -> negb (match e with RIo EEOF => true | _ => false end) = true.
+Proof. destruct e as [[| |]| | | | | | | |]; try reflexivity. intros H; exfalso; apply H; reflexivity. Qed.
+
+Definition tail_fails (t : tail) : bool := match t with TFail => true | TEOF => false end.
+
+(* C16, read side, stream level — for EVERY frame sequence (valid or not) *)
+Theorem cut_stream_any : forall c fs cut t s bufs fuel,
+  wf_cfg c -> Forall wf_sframe fs -> (cut <= length (wire fs))%nat ->
+  wf_src s -> tl s = t -> flat s = firstn cut (wire fs) -> (cut + 2 <= fuel)%nat ->
+  let d := drive fuel bufs (new_reader s (c_state c) false (c_check_utf8 c) (c_max c) (c_ext c) CbReadAll) in
+  cut_monitor c true fs (N.of_nat cut) (tail_fails t) (dr_events d) (dr_err d) = true.
+Proof.
+  intros c fs cut t s bufs fuel Hc Hfs Hcut Hw Ht Hfl Hfuel. cbv zeta.
+  set (r := new_reader s (c_state c) false (c_check_utf8 c) (c_max c) (c_ext c) CbReadAll).
+  unfold cut_monitor, reader_monitor, expected_events.
+  destruct (frames_before (N.of_nat cut) fs) as [done rest'] eqn:Efb.
+  destruct (frames_before_spec _ _ _ _ Efb) as (tailfs & Hsplit & Hcn & Htail).
+  assert (Hdone: Forall wf_sframe done /\ Forall wf_sframe tailfs) by (rewrite Hsplit in Hfs; apply Forall_app, Hfs).
+  destruct Hdone as [Hdone Htl].
+  set (x := take rest' (wire tailfs)).
+  assert (Hflx: flat s = wire done ++ x).
+  { rewrite Hfl. change (firstn cut (wire fs)) with (firstn cut (wire fs)).
+    replace (firstn cut (wire fs)) with (take (N.of_nat cut) (wire fs)) by (unfold take; rewrite Nat2N.id; reflexivity).
+    rewrite Hsplit, wire_app, Hcn. rewrite take_app_ge by lia.
+    replace (len (wire done) + rest' - len (wire done)) with rest' by lia. reflexivity. }
+  assert (Hlenx: (length (wire done ++ x) = cut)%nat).
+  { rewrite <- Hflx, Hfl. apply firstn_length_le, Hcut. }
+  assert (Hxwf: wf_bytes x) by (apply wf_bytes_take, wire_wf, Htl).
+  assert (Hrest0: tailfs = [] -> rest' = 0).
+  { intros ->. rewrite app_nil_r in Hsplit. subst done.
+    assert (N.of_nat cut <= len (wire fs)) by (unfold len; lia). lia. }
+  destruct (match t with TEOF => rest' =? 0 | TFail => false end) eqn:Ecase.
+  - (* EOF exactly at a frame boundary: the complete stream [done] *)
+    destruct t; [|discriminate]. assert (rest' = 0) by lia. subst rest'.
+    assert (Hx0: x = []) by reflexivity. rewrite Hx0, app_nil_r in Hflx.
+    pose proof (drive_spec c bufs Hc fuel done 0%nat [] [] r
+                  (new_reader_bnd c done s Hc Hdone Hw Ht Hflx) eq_refl) as H.
+    specialize (H ltac:(rewrite Hx0, app_nil_r in Hlenx; lia)). destruct H as (H1 & H2 & _).
+    cbn [tail_fails N.eqb]. rewrite H1. cbn [andb].
+    destruct (sr_out (spec_run c 0 None [] done)); cbn [err_matches] in H2 |- *; try (rewrite H2; reflexivity);
+      destruct (dr_err (drive fuel bufs r)) as [[| |]| | | | | | | |]; try discriminate H2; reflexivity.
+  - (* inside a frame, or a failing tail *)
+    set (hl := match nth_error fs (length done) with
+               | Some f => len (rfc_header (sf_header f)) | None => 0 end).
+    set (eof_ok := match t with TEOF => rest' <? hl | TFail => false end).
+    assert (Hend: forall c openm lg r, wf_cfg c -> BndX t x c openm lg [] r ->
+      exists h e r', next_frame r = ((h, e), r') /\
+        match e with
+        | Some err => r_log r' = lg /\ (err = RIo EEOF -> openm = None /\ eof_ok = true)
+        | None => Short lg r'
+        end).
+    { intros c0 openm lg r0 _ HB0. destruct tailfs as [|f more].
+      - specialize (Hrest0 eq_refl). subst rest'.
+        destruct (end_header_cut t x c0 openm lg r0 Hxwf eq_refl HB0) as (h & err & r' & Hnf & Hlg & He).
+        exists h, (Some err), r'. split; [exact Hnf|]. split; [exact Hlg|].
+        intros E. destruct (He E) as [_ ->]. discriminate Ecase.
+      - assert (Hxf: x = take rest' (sf_wire f)).
+        { unfold x. change (f :: more) with ([f] ++ more). rewrite wire_app.
+          unfold wire at 1. cbn [map concat]. rewrite app_nil_r. apply take_app_le. lia. }
+        rewrite Hxf in HB0.
+        assert (Hhl: hl = len (rfc_header (sf_header f))).
+        { unfold hl. rewrite Hsplit, nth_error_app2 by lia. rewrite Nat.sub_diag. reflexivity. }
+        unfold eof_ok. rewrite Hhl.
+        exact (cut_end t f rest' c0 openm lg r0 (Forall_inv Htl) Htail HB0). }
+    pose proof (drive_specX t x Hxwf eof_ok Hend c bufs Hc fuel done 0%nat [] [] r
+                  (new_reader_bndX t x c done s Hc Hdone Hw Ht Hflx) eq_refl ltac:(lia)) as [H1 H2].
+    rewrite H1. cbn [andb]. fold hl.
+    destruct (sr_out (spec_run c 0 None [] done)); cbn [acc_err] in H2; try (rewrite H2; reflexivity).
+    + (* outside a message *)
+      destruct t; cbn [tail_fails].
+      * rewrite Ecase. unfold eof_ok in H2. destruct (rest' <? hl); [reflexivity|].
+        apply negb_clean. destruct H2 as [H2|H2]; [exact H2|discriminate H2].
+      * apply negb_clean. destruct H2 as [H2|H2]; [exact H2|discriminate H2].
+    + (* inside a message *)
+      destruct (tail_fails t); [apply negb_clean, H2|].
+      destruct (rest' =? 0); apply negb_clean, H2.
+Qed.
+
+Theorem cut_stream : forall c fs cut t s bufs fuel,
+  wf_cfg c -> Forall wf_sframe fs -> sr_out (spec_run c 0 None [] fs) = OClean ->
+  (cut <= length (wire fs))%nat ->
+  wf_src s -> tl s = t -> flat s = firstn cut (wire fs) -> (cut + 2 <= fuel)%nat ->
+  let d := drive fuel bufs (new_reader s (c_state c) false (c_check_utf8 c) (c_max c) (c_ext c) CbReadAll) in
+  cut_monitor c true fs (N.of_nat cut) (match t with TFail => true | TEOF => false end) (dr_events d) (dr_err d) = true.
+Proof. intros c fs cut t s bufs fuel Hc Hfs _. apply cut_stream_any; assumption. Qed.
